@@ -2,4 +2,4 @@ From Coq Require Extraction ExtrOcamlBasic.
 From Common Require Import Words.
 From Avl Require Import AvlSpec AvlModel.
 Extraction Language OCaml.
-Extraction "model.ml" anchor m_init s_init step spec_step choice_of m_sel s_sel inorder size.
+Extraction "model.ml" anchor m_init s_init step spec_step choice_of m_sel s_sel m_other s_other inorder size.
